@@ -1,4 +1,64 @@
-From Coq Require Import ZArith List Bool.
-From PW Require Import Model.Base Model.Tpm.
-Theorem C12_placeholder : True. Proof. exact I. Qed.
-Print Assumptions C12_placeholder.
+(* C12 — TPM attestation structures are decoded field-for-field. *)
+From Coq Require Import ZArith List Bool String.
+From PW Require Import Model.Base Model.Cbor Model.Tpm Generated.Constants Spec.TpmSpec Proofs.TpmProofs.
+Import ListNotations.
+Open Scope Z_scope.
+
+(* the identifier tables the code uses (regenerated every run) ARE the TCG tables, keyed by 2-byte ids, injective *)
+Theorem C12_tables :
+  (norm tpm_st_map = tcg_st /\ all_two_bytes tpm_st_map = true) /\
+  (norm tpm_alg_map = tcg_alg /\ all_two_bytes tpm_alg_map = true) /\
+  (norm tpm_ecc_curve_map = tcg_curve /\ all_two_bytes tpm_ecc_curve_map = true) /\
+  nodupb (map fst tcg_st) = true /\ nodupb (map fst tcg_alg) = true /\ nodupb (map fst tcg_curve) = true.
+Proof. exact (conj st_table_is_tcg (conj alg_table_is_tcg (conj curve_table_is_tcg tables_injective))). Qed.
+Print Assumptions C12_tables.
+
+(* every attribute bit, for ALL attribute words (bit lemma, not a sweep) *)
+Theorem C12_attribute_bits : forall a k, 0 <= k -> attr_bit a k = Z.testbit a k.
+Proof. exact attr_bit_is_testbit. Qed.
+Print Assumptions C12_attribute_bits.
+Theorem C12_attribute_positions : attr_positions = map snd tpma_object_bits.
+Proof. exact attr_positions_are_spec. Qed.
+Print Assumptions C12_attribute_positions.
+
+(* TPMS_ATTEST: every field value, every 2-byte-prefixed length 0..65535, every known structure tag and name algorithm:
+   exactly the encoded fields for 'certify', InvalidTPMCertInfoStructure for every other known tag *)
+Theorem C12_cert_info : forall magic typ qs ed clock reset restart safe fw alg nm_rest qn tyname algname,
+  len magic = 4 -> len clock = 8 -> len fw = 8 ->
+  len qs < 65536 -> len ed < 65536 -> 2 + len nm_rest < 65536 -> len qn < 65536 ->
+  0 <= reset < 2 ^ 32 -> 0 <= restart < 2 ^ 32 ->
+  In (typ, tyname) tcg_st -> In (alg, algname) tcg_alg ->
+  let name := be_bytes 2 alg ++ nm_rest in
+  parse_cert_info (tpms_attest magic typ qs ed clock reset restart safe fw name qn) =
+    if String.eqb tyname "ATTEST_CERTIFY" then
+      Ok {| ci_magic := magic; ci_type := tyname; ci_qualified_signer := qs; ci_extra_data := ed;
+            ci_clock := {| ck_clock := clock; ck_reset := reset; ck_restart := restart; ck_safe := negb (safe =? 0) |};
+            ci_firmware := fw; ci_name_alg := algname; ci_name_alg_bytes := be_bytes 2 alg; ci_name := name;
+            ci_qualified_name := qn |}
+    else Err (Lib InvalidTPMCertInfoStructure).
+Proof. exact parse_cert_info_exact. Qed.
+Print Assumptions C12_cert_info.
+
+Theorem C12_pub_area_rsa : forall name_alg attrs ap sym scheme key_bits exponent unique nalg symname schname,
+  0 <= attrs < 2 ^ 32 -> len ap < 65536 -> len key_bits = 2 -> len exponent = 4 -> len unique < 65536 ->
+  In (name_alg, nalg) tcg_alg -> In (sym, symname) tcg_alg -> In (scheme, schname) tcg_alg ->
+  parse_pub_area (tpmt_public_rsa name_alg attrs ap sym scheme key_bits exponent unique) =
+    Ok {| pa_type := "RSA"; pa_name_alg := nalg; pa_attrs := attrs; pa_auth_policy := ap;
+          pa_params := RSAParams symname schname key_bits exponent; pa_unique := unique |}.
+Proof. exact parse_pub_area_rsa_exact. Qed.
+Print Assumptions C12_pub_area_rsa.
+
+Theorem C12_pub_area_ecc : forall name_alg attrs ap sym scheme curve kdf x y nalg symname schname crvname kdfname,
+  0 <= attrs < 2 ^ 32 -> len ap < 65536 -> len x < 65536 -> len y < 65536 ->
+  In (name_alg, nalg) tcg_alg -> In (sym, symname) tcg_alg -> In (scheme, schname) tcg_alg ->
+  In (curve, crvname) tcg_curve -> In (kdf, kdfname) tcg_alg ->
+  parse_pub_area (tpmt_public_ecc name_alg attrs ap sym scheme curve kdf x y) =
+    Ok {| pa_type := "ECC"; pa_name_alg := nalg; pa_attrs := attrs; pa_auth_policy := ap;
+          pa_params := ECCParams symname schname crvname kdfname; pa_unique := x ++ y |}.
+Proof. exact parse_pub_area_ecc_exact. Qed.
+Print Assumptions C12_pub_area_ecc.
+
+Example C12_nonvacuous :
+  In (32791, "ATTEST_CERTIFY"%string) tcg_st /\ In (32792, "ATTEST_QUOTE"%string) tcg_st /\ In (11, "SHA256"%string) tcg_alg /\
+  In (3, "NIST_P256"%string) tcg_curve.
+Proof. cbn. tauto. Qed.
